@@ -204,6 +204,38 @@ func c06r3(c *an.Ctx) {
 					walk(e)
 				}
 			case *ssa.Const:
+			case *ssa.UnOp:
+				// a local kept in memory (its address is handed to a helper): every store to it counts
+				if al, isAl := x.X.(*ssa.Alloc); isAl && x.Op == token.MUL {
+					for _, ref := range *al.Referrers() {
+						switch r := ref.(type) {
+						case *ssa.Store:
+							if r.Addr == al {
+								walk(r.Val)
+							} else {
+								bad = append(bad, "address of the local escapes at "+c.P.InstrPos(r))
+							}
+						case *ssa.UnOp, *ssa.DebugRef:
+						default:
+							bad = append(bad, "address of the local escapes at "+c.P.InstrPos(ref))
+						}
+					}
+					return
+				}
+				rv := an.Resolve(v)
+				if rv != v {
+					walk(rv)
+					return
+				}
+				if isPktStream(v) {
+					in, _ := v.(ssa.Instruction)
+					if in != nil && guardedByKind(in.Block(), kinds["KindInvoke"], true) && leadsToForward(in, pkts) {
+						return
+					}
+					bad = append(bad, "pkt.ID.Stream recorded at "+c.P.InstrPos(in)+" without a KindInvoke guard / without forwarding the packet")
+					return
+				}
+				bad = append(bad, "unrecognised source "+an.R(v))
 			default:
 				rv := an.Resolve(v)
 				if rv != v {
